@@ -10,6 +10,10 @@ NOT_BUILT = "rules designed (DESIGN.md sections 3-4) but not built yet; not clai
 
 # property -> (technique, level text, level note, design ref)
 CLAIMED = {
+ "C07": ("def-use dependency slices on SSA (what the stored limits depend on), pruned-CFG reachability for 'refresh on every path when time is tracked', who-may-write table for the status field, after-call effect analysis in CallContext, monotone-flag check",
+         "Dependency-presence and ownership conditions: breaking any one lets a child context exceed what its parent has left, keeps consumption from being charged back, or lets Lua run with limits switched off / a wrong status be reported. The numeric limit algebra is not decided.",
+         "Trusted: go/ssa def-use. Not decided: uint64 limit arithmetic with 0 = unlimited.",
+         "DESIGN.md 3 (R-CONTEXT), 4 (C07)"),
  "C03": ("def-use and must-edge path facts on SSA for key normalisation across five sibling functions; type-switch agreement between Equals and Hash; who-may-write on slot keys; store-ordering check in the insertion routine; CFG ordering of raw access vs metamethod lookup",
          "Structural necessary conditions of map behaviour with normalised keys: each is such that breaking it makes some key unreachable, some equal pair address two fields, or a metamethod see a present key. The chain invariants and traversal laws over histories are not decided.",
          "Trusted: go/ssa. Not decided: chain invariants I1-I3, border validity, traversal over all histories, numeric equality corners.",
